@@ -12,6 +12,15 @@ for d in sorted(os.listdir(os.path.join(ROOT, "seeded"))):
     how = "MISSED"
     if cr.get("detected"):
         how = "proof obligation / correspondence only (no-failing-input-found)" if cr.get("no_failing_input_found") else "concrete failing input (spec oracle ± correspondence)"
+    rc = m.get("recheck")
+    if rc:
+        now = ("concrete failing input" if not rc.get("no_failing_input_found") else "broken proof/tie only (no-failing-input-found)") if rc.get("detected") else "MISSED"
+        if how == "MISSED" and rc.get("detected"):
+            how = "first run MISSED; after strengthening (%s): %s" % (m.get("strengthening", "generator"), now)
+        elif m.get("strengthening") and rc.get("detected"):
+            how = now + " (after strengthening: %s)" % m["strengthening"]
+        else:
+            how = now if rc.get("detected") else "MISSED"
     extra = "; ".join(m.get("also_detected_by", []))
     what = (m.get("what_changed") or "").replace("\n", " ").replace("|", "/")
     needs = (m.get("needs_to_manifest") or "").replace("\n", " ").replace("|", "/")
